@@ -204,7 +204,7 @@ func (n *Node) create(restart bool) error {
 	inc.Raft = r
 	c.loggers.Store(r.VerifLogger(), inc)
 	inc.OnCrash = func(desc string, torn int, pre int64) { n.crashNow(inc, desc, torn, pre) }
-	ep.PostHandler = func() { n.sample(inc) }
+	ep.PostHandler = func(id uint64) { n.sampleVia(inc, id) }
 	n.Cur, n.Raft, n.FSM = inc, r, fsm
 	return nil
 }
@@ -258,7 +258,9 @@ func (n *Node) startSampler() {
 
 // sample takes a locked state sample of an incarnation and records it; samples of one node are serialised
 // so that they are recorded in the order they were taken.
-func (n *Node) sample(inc *shim.Inc) *mon.Sample {
+func (n *Node) sample(inc *shim.Inc) *mon.Sample { return n.sampleVia(inc, 0) }
+
+func (n *Node) sampleVia(inc *shim.Inc, via uint64) *mon.Sample {
 	if inc.Dead() || inc.Raft == nil {
 		return nil
 	}
@@ -270,7 +272,7 @@ func (n *Node) sample(inc *shim.Inc) *mon.Sample {
 	if inc.Dead() || s.State == "shutdown" {
 		return s
 	}
-	n.cl.M.Emit(mon.Event{Kind: mon.KSample, Node: n.ID, Inc: inc.N, St: s})
+	n.cl.M.Emit(mon.Event{Kind: mon.KSample, Node: n.ID, Inc: inc.N, St: s, Via: via})
 	return s
 }
 
